@@ -612,3 +612,163 @@ Proof. reflexivity. Qed.
 
 Lemma estimate_missing count n prior c : (c < 0)%Z -> estimate count n prior c = estimate count n prior 0.
 Proof. intros H. unfold estimate, imputed. apply Z.ltb_lt in H. rewrite H. reflexivity. Qed.
+
+(* ------------------------------------------------------------------ growth 2: the object store *)
+Lemma dset_same k v d : dget k d = Some v -> dset k v d = d.
+Proof.
+  induction d as [|[k' v'] d IH]; simpl; [discriminate|].
+  destruct (String.eqb k' k) eqn:E; intros H.
+  - inversion H; subst. reflexivity.
+  - rewrite IH by assumption. reflexivity.
+Qed.
+
+Lemma dget_in_nodup k v d : NoDup (map fst d) -> In (k, v) d -> dget k d = Some v.
+Proof.
+  induction d as [|[k' v'] d IH]; simpl; intros Hn Hin; [contradiction|].
+  inversion Hn; subst. destruct Hin as [E|Hin].
+  - inversion E; subst. rewrite String.eqb_refl. reflexivity.
+  - destruct (String.eqb k' k) eqn:E; [|auto].
+    apply String.eqb_eq in E. subst. exfalso. apply H1. apply in_map_iff. exists (k, v). auto.
+Qed.
+
+(* d.update(d) is the identity for a dict (unique keys) -- the self round trip at the level of one dict *)
+Lemma dupdate_self d : NoDup (map fst d) -> dupdate d d = d.
+Proof.
+  intros Hn. unfold dupdate.
+  assert (G : forall l, (forall kv, In kv l -> In kv d) -> fold_left (fun acc kv => dset (fst kv) (snd kv) acc) l d = d).
+  { induction l as [|[k v] l IH]; simpl; intros Hl; [reflexivity|].
+    rewrite dset_same by (apply dget_in_nodup; [exact Hn|apply Hl; left; reflexivity]).
+    apply IH. intros kv Hkv. apply Hl. right. exact Hkv. }
+  apply G. auto.
+Qed.
+
+Lemma dget_dset k k' v d : dget k (dset k' v d) = if String.eqb k' k then Some v else dget k d.
+Proof.
+  induction d as [|[k0 v0] d IH]; simpl.
+  - reflexivity.
+  - destruct (String.eqb k0 k') eqn:E0; simpl.
+    + apply String.eqb_eq in E0. subst k0. destruct (String.eqb k' k); reflexivity.
+    + destruct (String.eqb k0 k) eqn:E1; [|exact IH].
+      apply String.eqb_eq in E1. subst k0. rewrite String.eqb_sym, E0. reflexivity.
+Qed.
+
+Lemma dget_notin k d : ~ In k (map fst d) -> dget k d = None.
+Proof.
+  induction d as [|[k' v'] d IH]; simpl; intros H; [reflexivity|].
+  destruct (String.eqb k' k) eqn:E; [apply String.eqb_eq in E; subst; exfalso; apply H; left; reflexivity|].
+  apply IH. intros Hin. apply H. right. exact Hin.
+Qed.
+
+(* after dst.update(src): every attribute of the source is there with the source's value, every other attribute of the
+   destination is untouched *)
+Lemma dget_dupdate s : NoDup (map fst s) ->
+  forall d k, dget k (dupdate d s) = match dget k s with Some v => Some v | None => dget k d end.
+Proof.
+  unfold dupdate. induction s as [|[k0 v0] s IH]; intros Hn d k; simpl; [reflexivity|].
+  inversion Hn; subst. rewrite IH by assumption. rewrite dget_dset.
+  destruct (String.eqb k0 k) eqn:E.
+  - apply String.eqb_eq in E. subst k0. rewrite (dget_notin k s H1). reflexivity.
+  - reflexivity.
+Qed.
+
+Lemma to_dict_keys_nodup t : NoDup (map fst (to_dict t)).
+Proof.
+  unfold to_dict. destruct (t_state t); simpl; repeat constructor; simpl; intuition discriminate.
+Qed.
+
+Lemma of_to_dict t : of_dict (to_dict t) = Some t.
+Proof. destruct t as [b [s|] [k|]]; reflexivity. Qed.
+
+Lemma hget_hset o d h o' : hget o' (hset o d h) = if (o =? o')%nat then Some d else hget o' h.
+Proof.
+  induction h as [|[o0 d0] h IH]; simpl.
+  - reflexivity.
+  - destruct (o0 =? o)%nat eqn:E0; simpl.
+    + apply Nat.eqb_eq in E0. subst o0. destruct (o =? o')%nat; reflexivity.
+    + destruct (o0 =? o')%nat eqn:E1; [|exact IH].
+      apply Nat.eqb_eq in E1. subst o0. rewrite Nat.eqb_sym, E0. reflexivity.
+Qed.
+
+(* SELF round trip  t.load_state_dict(t.state_dict()) : source and destination are the same live dict.  Every object of
+   the heap, t included, has exactly the attributes it had. *)
+Lemma self_round_trip_identity h o d :
+  hget o h = Some d -> NoDup (map fst d) ->
+  exists h', st_state_dict h o false = Some (RLive o) /\ st_load h o (RLive o) = Some h' /\
+             forall o', hget o' h' = hget o' h.
+Proof.
+  intros Hd Hn. unfold st_state_dict, st_load, deref, obind. rewrite Hd.
+  eexists. split; [reflexivity|]. split; [reflexivity|].
+  intros o'. rewrite hget_hset, dupdate_self by assumption.
+  destruct (o =? o')%nat eqn:E; [apply Nat.eqb_eq in E; subst; auto|reflexivity].
+Qed.
+
+(* round trip into ANOTHER object (a fresh instance or any existing one), through the live dict or a detached copy:
+   the destination reads back as the very transform value of the source; the source and all other objects are
+   untouched *)
+Lemma round_trip_into_other h src dst t dd (copy : bool) :
+  hget src h = Some (to_dict t) -> hget dst h = Some dd -> src <> dst ->
+  dget "_is_fitted" dd <> None -> dget "_transformed_stats" dd <> None ->
+  (t_state t = None -> dget "fit_attrs" dd = None) ->
+  exists sd h', st_state_dict h src copy = Some sd /\ st_load h dst sd = Some h' /\
+                (exists d', hget dst h' = Some d' /\ of_dict d' = Some t) /\
+                forall o', o' <> dst -> hget o' h' = hget o' h.
+Proof.
+  intros Hs Hd Hne H1 H2 H3. unfold st_state_dict, obind. rewrite Hs.
+  exists (if copy then RCopy (to_dict t) else RLive src).
+  assert (Hder : deref h (if copy then RCopy (to_dict t) else RLive src) = Some (to_dict t)) by (destruct copy; simpl; auto).
+  unfold st_load, obind. rewrite Hd, Hder. eexists. split; [reflexivity|]. split; [reflexivity|]. split.
+  - eexists. split; [rewrite hget_hset, Nat.eqb_refl; reflexivity|].
+    unfold of_dict. rewrite !(dget_dupdate _ (to_dict_keys_nodup t)).
+    destruct t as [b [s|] [k|]]; simpl in *;
+      destruct (dget "_is_fitted" dd); try congruence; destruct (dget "_transformed_stats" dd); try congruence;
+      try rewrite (H3 eq_refl); reflexivity.
+  - intros o' Ho. rewrite hget_hset. destruct (dst =? o')%nat eqn:E; [apply Nat.eqb_eq in E; congruence|reflexivity].
+Qed.
+
+(* the seeded variant C17_10 (clear() before update) is refuted for source = destination: the fitted transform of the
+   witness can no longer be used (its attributes are gone), while the library's load keeps it *)
+Definition w_fit : fitted := mkfitted [("c"%string, [2; 1]%Z)] 3 2 [1 # 2] ["c_0"%string].
+Definition w_obj : transform := mktransform true (Some w_fit) (Some ["c_0"%string]).
+Definition w_heap0 : heap := [(0%nat, to_dict w_obj)].
+
+Lemma clear_before_update_refuted :
+  (exists h', st_load w_heap0 0 (RLive 0%nat) = Some h' /\ (d <- hget 0 h' ;; of_dict d) = Some w_obj) /\
+  (exists h', st_load_clear w_heap0 0 (RLive 0%nat) = Some h' /\ (d <- hget 0 h' ;; of_dict d) = None).
+Proof. split; eexists; split; vm_compute; reflexivity. Qed.
+
+(* ------------------------------------------------------------------ growth 2: the prior and the task rule *)
+(* regression / binary: the prior is the mean over the LABELLED rows only (NaN rows do not count in the denominator) *)
+Definition labelled (ys : list (option Q)) : list Q :=
+  flat_map (fun v => match v with Some q => [q] | None => [] end) ys.
+
+Lemma prior_float_is_mean_of_labelled ys :
+  labelled ys <> [] -> target_prior (YFloat ys) = Some (2%nat, [qmean (labelled ys)]).
+Proof.
+  intros H. unfold target_prior. fold (labelled ys). destruct (labelled ys); [congruence|reflexivity].
+Qed.
+
+(* the seeded variant C17_11 (nansum / number of ALL rows) is refuted *)
+Lemma prior_over_all_rows_refuted :
+  exists ys, labelled ys <> [] /\
+    ~ (qsum (labelled ys) / qnat (length ys) == qmean (labelled ys)).
+Proof.
+  exists [Some 1; None]. split; [discriminate|]. intros H. vm_compute in H. discriminate.
+Qed.
+
+(* the task rule depends on the DTYPE: floating-point labels are never a multiclass problem, whatever their values
+   (the seeded variant C17_12 treated whole-valued floats as class labels) *)
+Lemma float_labels_are_never_multiclass ys k prior :
+  target_prior (YFloat ys) = Some (k, prior) -> k = 2%nat /\ length prior = 1%nat.
+Proof.
+  unfold target_prior. destruct (flat_map _ ys); [discriminate|]. intros H; inversion H; subst. auto.
+Qed.
+
+Lemma int_labels_multiclass_iff ys m k prior :
+  zmax ys = Some m -> target_prior (YInt ys) = Some (k, prior) ->
+  ((1 < m)%Z -> k = (Z.to_nat m + 1)%nat) /\ ((m <= 1)%Z -> k = 2%nat).
+Proof.
+  intros Hm. unfold target_prior, obind. rewrite Hm. destruct (1 <? m)%Z eqn:E.
+  - destruct (existsb _ ys); [discriminate|]. intros H; inversion H; subst.
+    apply Z.ltb_lt in E. split; [reflexivity|lia].
+  - intros H; inversion H; subst. apply Z.ltb_ge in E. split; [lia|reflexivity].
+Qed.
